@@ -123,9 +123,14 @@ def body_E1(ctx):
     TM = MessageType("t:tm", [Field("x", ser, "")], "")
     TA = ActionType("t:ta", [Field("x", ser, "")], [Field("r", ser, "")], "")
 
+    xkind = ctx.choose(2, "extractor result keys") if sh.get("xkeys", 1) else 0
+
     def extractor(e):
         if faults.maybe("extractor"):
             raise SerBoom("extractor")
+        if xkind:
+            # keys that coincide with the message's own fields: must be tolerated, never raise
+            return {"reason": "from extractor", "exception": "x.Y", "traceback": "tb", "message_type": "mt", "task_uuid": "tu", "payload": e.payload}
         return {"payload": e.payload}
 
     register_exception_extractor(AppError, extractor)
@@ -346,7 +351,7 @@ OBLIGATIONS = [
         E1,
         body_E1,
         "X",
-        desc="10 entry-point kinds x 12 hostile values x fault masks over serializers/extractors/destination: no logging call raises, application exceptions and return values pass through",
+        desc="10 entry-point kinds x 12 hostile values x 2 extractor result shapes (plain / keys colliding with message fields) x fault masks over serializers/extractors/destination: no logging call raises, application exceptions and return values pass through",
         functions=["Logger.write", "Destinations.send", "_safe_unicode_dictionary", "safeunicode", "saferepr", "ErrorExtraction.get_fields_for_exception", "write_traceback", "Action.finish", "Action.__exit__", "log_call", "MessageType.log", "ActionType.__call__", "Message.log", "Message.write", "FileDestination.__call__"],
         shards=_e1_shards,
         twin=[{"calls": 1, "F": 2, "flaky_first": 1, "twin_label": "two-faults"}],
